@@ -252,13 +252,18 @@ func (msg *MessageAuth) FromBytes(src []byte) error {
 		return ErrNotEnoughSourceBytes
 	}
 
-	p, q := 0, l/(MessageChunkBytesMax+2)+1
+	// number of chunks, rounding up (a source of exactly n full chunks used to be
+	// counted as n+1 chunks and indexed past its end)
+	p, q := 0, (l+MessageChunkBytesMax+1)/(MessageChunkBytesMax+2)
 	chunks := make([]*MessageChunk, 0, q)
 	var chunk *MessageChunk
 	for i := 0; i < q; i++ {
 		chunk = &MessageChunk{}
 		p = i * (MessageChunkBytesMax + 2)
 
+		if l < p+2 {
+			return ErrIncorrectSourceBytes
+		}
 		chunk.Length = src[p]
 		if (q > 1 && i < q-1 && int(chunk.Length) != MessageChunkBytesMax) ||
 			(l < p+2+int(chunk.Length)) || int(chunk.Length) < MessageChunkBytesMin {
@@ -296,6 +301,10 @@ func (msg *MessageAuth) FromChunks(chunks []*MessageChunk) error {
 	var foundDelimiter bool
 	for i, b := range src {
 		if b == MessageChunkBytesDelimiter {
+			if i+1 > len(src)-1 {
+				// the delimiter is the last byte: no room for key and parity
+				return ErrIncorrectSourceBytes
+			}
 			msg.Username = string(src[:i])
 			msg.PublicKeyBytes = src[i+1 : len(src)-1]
 			msg.PublicKeyParity = src[len(src)-1]
